@@ -115,8 +115,8 @@ func runC03RT(c c03RT) error {
 }
 
 func TestC03RealTransport(t *testing.T) {
-	vh.ShrinkTime("5s") // a failing case waits for the handler's own deadline
-	vh.Check(t, 12, 300, func(t *rapid.T) {
+	vh.ShrinkTime("5s")                    // a failing case waits for the handler's own deadline
+	vh.Check(t, 12, 60, func(t *rapid.T) { // (every case opens up to a dozen connections: the thorough tier stays well inside the ephemeral port range)
 		c := c03RT{K: rapid.IntRange(2, 12).Draw(t, "k")}
 		c.Workers = uint64(rapid.IntRange(1, c.K).Draw(t, "workers"))
 		switch rapid.SampledFrom([]string{"plain", "h2", "h2", "conns", "nokeepalive", "conns+nokeepalive", "conns+nokeepalive", "nokeepalive+conns"}).Draw(t, "kind") {
